@@ -256,6 +256,10 @@ def pieces (chunks : List Bytes) : List Ev := chunks.flatMap fun c => [.text c, 
 def vEvents (p : Bool) (chunks : List Bytes) : List Ev :=
   [.start (q p nV) []] ++ pieces chunks ++ [.stop (q p nV)]
 
+/-- `<v>text</v>` with the text in one piece and nothing else (used by other encoders, e.g. `Spec/SharedSheet`) -/
+def vEventsPlain (p : Bool) (t : Bytes) : List Ev :=
+  [.start (q p nV) []] ++ (if t = [] then [] else [.text t]) ++ [.stop (q p nV)]
+
 /-- `t` attribute and value children of a cell; `sp` cuts a text into its pieces -/
 def contentEvents (p : Bool) (sp : Bytes → List Bytes) : Content → Attrs × List Ev
   | .blank => ([], [])
